@@ -646,3 +646,58 @@ Proof.
          [mkE [7] 9 0 0 0 [1]; mkE [7] 9 0 0 0 [1]; mkE [7] 8 0 0 0 [2]].
   split; [reflexivity|]. vm_compute. discriminate.
 Qed.
+
+(* ================= facts about the loop state on ARBITRARY streams ================= *)
+(* (no sortedness, drop prefixes allowed): the skip key is always the last key, hence a skip is
+   only ever cleared by an entry of another key, and the version count then restarts — a key can
+   never "continue counting" after its skip was cleared, and the count never carries over from
+   one key to the next *)
+Section AnyStream.
+  Variable p : cparams.
+
+  Definition skip_is_last (st : cstate) : Prop :=
+    forall k, cs_skip st = Some k -> cs_last st = Some k.
+
+  Lemma skip_is_last_init : skip_is_last cs_init.
+  Proof. intros k H. discriminate. Qed.
+
+  Lemma skip_is_last_step st x st' b :
+    skip_is_last st -> filter_step p st x = (st', b) -> skip_is_last st'.
+  Proof.
+    unfold filter_step. intros Hi.
+    destruct (has_any_prefix (cp_drop p) x); [intros [= <- <-]; exact Hi|].
+    destruct (opt_key_is (cs_skip st) (e_key x)); [intros [= <- <-]; exact Hi|].
+    cbn [cs_last cs_skip cs_nver].
+    set (st2 := if opt_key_is (cs_last st) (e_key x) then _ else _).
+    assert (L2 : cs_last st2 = Some (e_key x)).
+    { subst st2. destruct (opt_key_is (cs_last st) (e_key x)) eqn:L; cbn [cs_last]; auto.
+      now apply opt_key_is_true in L. }
+    assert (S2 : cs_skip st2 = None)
+      by (subst st2; destruct (opt_key_is (cs_last st) (e_key x)); reflexivity).
+    clearbody st2.
+    destruct ((e_ver x <=? cp_discard p) && negb (is_merge x)).
+    - destruct (deleted_or_expired x (cp_now p) || (has_discard x || (cs_nver st2 + 1 =? cp_nkeep p))).
+      + destruct (negb (deleted_or_expired x (cp_now p)) && (has_discard x || (cs_nver st2 + 1 =? cp_nkeep p)));
+          [|destruct (cp_overlap p)]; intros [= <- <-] k; cbn [cs_last cs_skip]; congruence.
+      + intros [= <- <-] k; cbn [cs_last cs_skip]; discriminate.
+    - intros [= <- <-] k. rewrite S2. discriminate.
+  Qed.
+
+  (* the entry that clears a skip belongs to another key and restarts the count at zero *)
+  Lemma count_restarts_after_skip st x st' b k :
+    skip_is_last st -> cs_skip st = Some k -> e_key x <> k ->
+    has_any_prefix (cp_drop p) x = false ->
+    filter_step p st x = (st', b) ->
+    cs_nver st' = (if counted p x then 1 else 0).
+  Proof.
+    intros Hi Hk Hne Hp. unfold filter_step. rewrite Hp, Hk, (Hi k Hk).
+    cbn [opt_key_is cs_last cs_skip cs_nver].
+    rewrite (bytes_eqb_neq k (e_key x)) by congruence. cbn [cs_last cs_skip cs_nver].
+    fold (counted p x). destruct (counted p x).
+    - destruct (deleted_or_expired x (cp_now p) || (has_discard x || (0 + 1 =? cp_nkeep p))).
+      + destruct (negb (deleted_or_expired x (cp_now p)) && (has_discard x || (0 + 1 =? cp_nkeep p)));
+          [|destruct (cp_overlap p)]; intros [= <- <-]; reflexivity.
+      + intros [= <- <-]; reflexivity.
+    - intros [= <- <-]; reflexivity.
+  Qed.
+End AnyStream.
